@@ -777,3 +777,44 @@ def run_a15_a16(chk, repo):
         chk.violation(A16, pm.rel, g.name, 'no binding of A(i) from the $MODEL record on the $DES path',
                       'A(i) of a $DES model must follow the $MODEL record', line=g.node.lineno,
                       witness='$MODEL COMP=(CENTRAL DEFOBS) COMP=(DEPOT DEFDOSE) with $DES: CONC = A(1)/V is read as A_DEPOT/V')
+
+
+def run_a17(chk, A17, repo):
+    """ADVAN5/7 rate constants K<i><j> / K<i>T<j>: every pair of existing compartments is accepted, and the output compartment
+    may be addressed as 0 or by its own number (n + 1): a guard that skips "impossible" indices must not skip these"""
+    from sa import iterspace as IS
+    am = repo.module('pharmpy.model.external.nonmem.advan')
+    f = am.functions.get('_find_rates')
+    if f is None:
+        raise AnalysisError('_find_rates not found')
+    ncp = next((p for p in f.params if 'ncomp' in p), None)
+    if ncp is None:
+        raise AnalysisError('A17: parameter with the number of compartments not found in _find_rates')
+    guards_ = [I for I in ast.walk(f.node) if isinstance(I, ast.If) and I.body and all(isinstance(s_, ast.Continue) for s_ in I.body)
+               and ncp in {x.id for x in ast.walk(I.test) if isinstance(x, ast.Name)}]
+    chk.instance(A17, f'_find_rates: {len(guards_)} guard(s) that skip a rate constant by its compartment numbers')
+    for I in guards_:
+        names_ = sorted({x.id for x in ast.walk(I.test) if isinstance(x, ast.Name)} - {ncp})
+        if len(names_) != 2:
+            raise AnalysisError(f'A17: guard `{unparse(I.test)[:60]}` not understood')
+        # which name is the source: the one compared with 0 for equality, or the first in the text
+        a, b = names_
+        frm = a if f'{a} == 0' in unparse(I.test) or 'from' in a else b if 'from' in b else a
+        to = b if frm == a else a
+        skipped = []
+        for fn_ in range(1, 4):
+            for tn in range(0, 5):
+                if tn == fn_:
+                    continue
+                try:
+                    if IS.ev_x(I.test, {ncp: 4, frm: fn_, to: tn}):
+                        skipped.append((fn_, tn))
+                except Exception as ex:
+                    raise AnalysisError(f'A17: guard not evaluable: {ex}')
+        ok = not skipped
+        chk.instance(A17, f'_find_rates: `if {unparse(I.test)[:60]}: continue` with 3 compartments + output skips {skipped}: {ok}')
+        if not ok:
+            chk.violation(A17, am.rel, f.name, f'if {unparse(I.test)[:70]}: continue',
+                          f'legal rate constants {skipped} (source, destination; 4 = the output compartment addressed by its '
+                          f'number) are silently dropped', line=I.lineno,
+                          witness='$MODEL with three compartments and K24 = CL/V: the central compartment has no elimination')
